@@ -651,6 +651,17 @@ def sweep():
             out.append({"obligation": "sql_prec.NP2.%s.%s.%s" % (_NAME.get(o1, o1), _NAME.get(o2, o2), side), "input": "from t | select {v = %s}" % items[i],
                         "failing": bad is not None, "expected": None if bad is None else "%r on row %r" % (bad[1], bad[0]),
                         "observed": None if bad is None else repr(bad[2]), "replay_kind": "none"})
+    # negation of columns that are negative literals (inlined): `-a` with a = -5 must not come out as `--5`
+    for prql, want in [("from t\nderive {n = -5}\nselect {v = -n}\n", 5), ("from t\nderive {n = -5}\nselect {v = 3 - n}\n", 8), ("from t\nderive {n = -0.5}\nselect {v = -n}\n", 0.5),
+                       ("from t\nderive {n = -5}\nselect {v = -(-n)}\n", -5), ("from t\nselect {v = a * -1}\n", -7)]:
+        ok, sql = replaylib.compile_prql(prql, "sql.sqlite")
+        rec = {"obligation": "sql_prec.NP4.std_neg.l0.Neg", "input": prql, "expected": repr(want), "replay_kind": "none"}
+        if not ok:
+            rec.update(failing="PANIC" in sql, observed=sql[:200])
+        else:
+            ok2, got = replaylib.sqlite_rows(setup, sql)
+            rec.update(failing=(not ok2) or not got or got[0][0] is None or abs(float(got[0][0]) - want) > 1e-9, observed=repr(got)[:200] + " <- " + " ".join(sql.split())[:120])
+        out.append(rec)
     return out
 
 
